@@ -250,3 +250,18 @@ Fixpoint tneed (fuel : nat) (e : env) (t : ty) : nat :=
   | TStruct sid => 4 + length (fields_of e sid) + tmax (tneed f e) (fields_of e sid)
   | _ => 3
   end end.
+
+(* ---------- C05: types none of whose decoders contains a known-finding site ---------- *)
+(* the generated LIST branch (make([]T, n) with the wire count; also taken by vector<byte> when the writer
+   sends a LIST) and the fixed-array index are the sites of the recorded findings: a type is [safe_ty] when no
+   vector or array is reachable from it *)
+Fixpoint safe_ty (fuel : nat) (e : env) (t : ty) : bool :=
+  match fuel with O => false | S f =>
+  match t with
+  | TVec _ | TArr _ _ => false
+  | TMap a b => safe_ty f e a && safe_ty f e b
+  | TStruct sid => forallb (fun fd => safe_ty f e (fty fd)) (fields_of e sid)
+  | _ => true
+  end end.
+Definition ok_out {A} (r : dres A) : Prop := match r with DPanic _ | DHuge => False | _ => True end.
+Definition total_out {A} (r : dres A) : Prop := match r with DOk _ _ | DErr => True | _ => False end.
